@@ -124,15 +124,21 @@ def staged_fit_event(darsia, rng, tid, modes):
         ab = darsia.AdaptiveBalance()
         with warnings.catch_warnings():
             warnings.simplefilter("ignore")
+            stage_res = [float(np.sum((src - dst) ** 2))]
             for m in modes:
                 ab.find_balance(src, dst, mode=m)
+                stage_res.append(float(np.sum((ab.apply_balance(src) - dst) ** 2)))
         acc = ab.apply_balance(src)
     finally:
         cb.WhiteBalance, cb.ColorBalance, cb.AffineBalance = saved
     seq = src.copy()
     for (As, bs) in fitted:
         seq = seq @ As + bs
-    return {"tid": tid, "op": "staged_fit", "modes": list(modes), "seqexp": exponent(float(np.abs(acc - seq).max()))}
+    # every stage is fitted on the swatches balanced so far: the residual against the destinations never goes up, and an
+    # exactly affine destination is reached once an affine stage has been fitted
+    mono = int(all(stage_res[i + 1] <= stage_res[i] * (1 + 1e-9) + 1e-15 for i in range(len(stage_res) - 1)))
+    return {"tid": tid, "op": "staged_fit", "modes": list(modes), "seqexp": exponent(float(np.abs(acc - seq).max())), "monotone": mono,
+            "lastaffine": int(modes[-1] == "affine"), "resexp": exponent(float(np.abs(acc - dst).max()))}
 
 
 def run(ck, replay=None):
